@@ -1,7 +1,7 @@
 //! C01 - version comparison follows pkg_install's dewey ordering.
 //!
 //! Exhaustive over: all ordered pairs of versions built from <= N tokens of a
-//! 30-token alphabet x 4 operators (through `Pattern`), all unordered pairs
+//! 32-token alphabet x 4 operators (through `Pattern`), all unordered pairs
 //! through `best_match`, all character-level strings <= L over a 16-char
 //! alphabet against 24 probe versions (both placements), and an 18-digit pool.
 
@@ -16,9 +16,12 @@ use std::collections::BTreeSet;
 
 const FINDING: &str = "letter-weight-ascii";
 
-const TOKENS: [&str; 30] = [
+/// The last two tokens are characters whose *Unicode* lower-case mapping yields
+/// ASCII letters (KELVIN SIGN -> k, I WITH DOT ABOVE -> i + combining dot):
+/// they are non-ASCII and must be ignored, not read as letters.
+const TOKENS: [&str; 32] = [
     "0", "1", "2", "10", "09", ".", "_", "alpha", "beta", "rc", "pre", "pl", "nb", "a", "b", "z",
-    "n", "p", "r", "ALPHA", "Beta", "RC", "Pre", "PL", "NB", "A", "Z", "+", "é", "~",
+    "n", "p", "r", "ALPHA", "Beta", "RC", "Pre", "PL", "NB", "A", "Z", "+", "é", "~", "\u{212a}", "\u{130}",
 ];
 
 const CHARS: [char; 16] = [
@@ -385,7 +388,7 @@ fn main() {
         run.finish_replay(a, b);
     }
     run.rule(
-        "every ordered pair of versions built from <= N tokens of a 30-token alphabet, each \
+        "every ordered pair of versions built from <= N tokens of a 32-token alphabet, each \
          operator through a compiled Pattern against the name p-<A>; every unordered pair through \
          best_match; every string <= L over a 16-character alphabet against 24 probe versions in \
          both placements; an 18-digit pool. Non-trivial = the model comparison is decided after \
